@@ -15,6 +15,7 @@ import (
 
 	abci "github.com/tendermint/tendermint/abci/types"
 	"github.com/tendermint/tendermint/crypto/ed25519"
+	"github.com/tendermint/tendermint/crypto/secp256k1"
 	tmtypes "github.com/tendermint/tendermint/types"
 	dbm "github.com/tendermint/tm-db"
 
@@ -30,7 +31,7 @@ import (
 )
 
 const NKeys = 10 // plain ed25519 keys 0..9; Keys[10], Keys[11] are multisignature keys built from them
-const NAll = 12
+const NAll = 13
 const Denom = "upokt"
 const Denom2 = "voucher" // a second denomination some genesis accounts hold; it can only move as (part of) a fee
 
@@ -89,6 +90,13 @@ func init() {
 	}
 	Keys = append(Keys, multiKey(Keys[0], Keys[1]))
 	Keys = append(Keys, multiKey(Keys[2], multiKey(Keys[3], Keys[4]))) // nested: 5 signatures counted, under the default limit
+	// a multisignature key over two secp256k1 keys (which are no accounts of their own)
+	var secp []Key
+	for i := 0; i < 2; i++ {
+		priv := crypto.Secp256k1PrivateKey{}.PrivKeyToPrivateKey(secp256k1.GenPrivKeySecp256k1([]byte(fmt.Sprintf("verif-secp-%d", i))))
+		secp = append(secp, Key{Priv: priv, Pub: priv.PublicKey(), Addr: sdk.Address(priv.PublicKey().Address())})
+	}
+	Keys = append(Keys, multiKey(secp[0], secp[1]))
 	for i := NKeys; i < NAll; i++ {
 		keyByAddr[hx(Keys[i].Addr)] = i
 	}
@@ -572,6 +580,17 @@ func (f *Fam) txBytes(t txSpec) ([]byte, sdk.Msg) {
 				ms.Sigs = append(ms.Sigs, c.Sign(signBytes))
 			}
 			ms.Sigs[0], ms.Sigs[1] = ms.Sigs[1], ms.Sigs[0]
+			sig = ms.Marshal()
+		} else {
+			sig[3] ^= 0x40
+		}
+	case "msdup": // a multisignature in which the first component's signature stands in every position
+		if k := Keys[t.signer]; k.Sub != nil {
+			ms := crypto.MultiSignature{}
+			first := k.Sub[0].Sign(signBytes)
+			for range k.Sub {
+				ms.Sigs = append(ms.Sigs, first)
+			}
 			sig = ms.Marshal()
 		} else {
 			sig[3] ^= 0x40
